@@ -27,7 +27,8 @@ HOSTILE_DURATIONS = ["P", "PT", "-P1W1D", "P1Y", "PT1H1D", "P-1D", "P1.5D", "P99
                      "P999999999D", "PT86400S", "P١D", "P1D ", " P1D", "P1DT1H1M1S1", "PT1H30M15.5S"]
 HOSTILE_NUMBERS = ["", "1e400", "NaN", "-", "+", "1_000", "٣", "99999999999999999999999999999999999999", "0x10",
                    "1.5", "-0", "+7", " 7", "7 ", "١٢٣", "1e3", "inf", "−1"]
-HOSTILE_RULES = ["FREQ=SECONDLY", "FREQ=YEARLY;INTERVAL=0", "FREQ=DAILY;INTERVAL=0;BYMONTH=8;BYDAY=-1MO",
+HOSTILE_RULES = ["FREQ=DAILY", "FREQ=DAILY;UNTIL=20000101T000000Z", "FREQ=WEEKLY", "FREQ=DAILY;BYMONTH=1,2,3,4,5,6",
+                 "FREQ=SECONDLY", "FREQ=YEARLY;INTERVAL=0", "FREQ=DAILY;INTERVAL=0;BYMONTH=8;BYDAY=-1MO",
                  "FREQ=DAILY;COUNT=99999999", "FREQ=YEARLY;UNTIL=99991231T235959Z",
                  "FREQ=MINUTELY;BYDAY=2SU;BYMONTH=3", "FREQ=HOURLY;INTERVAL=1;BYDAY=2SU;BYMONTH=3",
                  "FREQ=YEARLY;BYSETPOS=400", "FREQ=", "", "FREQ=YEARLY;BYDAY=8SU", "FREQ=YEARLY;BYMONTH=13",
